@@ -62,6 +62,10 @@ CHECKS = {
    technique="TLA+ spec (Io.tla: what bufio.Scanner delivers when the reader fails after k tokens; write-call sequences and error reactions per sink) model-checked by TLC with ReaderErrReturned and NilMeansAllAccepted; every state replayed in worker processes with a fault-injecting reader (every byte offset) and writer (every Write call index, refusing nothing/half with an error)",
    text="TLC exhausts forests up to the bound x {reader failure after every token offset, writer refusal at every call index up to one past the last, fail and short} x sink kinds; each read state is replayed at every byte offset inside its token through 18 From-Markdown routes (text, JSON, YAML, TOML, dry-run, walk, verify, mkdir dry-run; iterator/slice generators; simple and massive): the returned error must satisfy errors.Is(err, readerErr); each write state enumerates the call indices from the real fault-free run on 17 output routes (From-Markdown and From-Root, simple and massive): the call may return nil only if no Write was refused or cut and the accepted bytes equal the fault-free output (up to root order in massive mode).",
    note="Writers that return n < len(p) without an error break the io.Writer contract and are not exercised. For verify the missing target is a second fault: only a non-nil error is required there."),
+ 'C11': dict(level=MC, ref='DESIGN.md 7/C11, 3.7, 4.1, 4.2',
+   technique="TLA+ spec of the massive-mode pipeline (Pipeline.tla: every hand-over point an action, coarse select semantics, named as-built deviations) model-checked by TLC for NoStuck / CancelMeansCtxErr / FaultMeansErr over all interleavings; real calls under perturbed schedules checked for return, leaked goroutines and ctx error; recorded hook traces validated against the spec by TLC (TracePipeline.tla, Layer M + Layer P); TLC's as-built counter-example schedules forced on the real goroutines with a gate; Go race detector as monitor for shared memory",
+   text="TLC exhausts every interleaving of splitter, 2 workers per stage, closers, the error handlers, main and a cancelling environment for 2 (thorough 3) blocks, every fate vector, reader failure at every block boundary, all six sinks and both entry points: no state without a successor unless every goroutine has finished (returns, no leak), cancelled => ctx error, fault => error. The real pipeline is then run for every sink with every fate vector up to 3-4 blocks, 5/8/12-block documents failing in most blocks, reader failures, cancellation before the call and at input offsets, From-Root feeders under a cancelled context, with GOMAXPROCS 1..16, seeded delays at the hook points and yielding reader/writer/callbacks: it must return within the deadline, leave no goroutine with a gtree frame after settling, and return the context's error when cancelled before the input was read. A sample of the recorded hook traces (global sequence number inside the hook) is replayed by TLC against Pipeline.tla's actions with LeakFree / ResultAgrees evaluated at every step; the two schedules TLC returns for the as-built model are forced with a plan gate (220 runs); the same calls are repeated in a worker built with -race.",
+   note="'no goroutine remains once it has returned' is checked after a settling period of 150 ms (workers may still be winding down when a failed or cancelled call returns). The spec decides race freedom only through the real race detector's observations; coarse select semantics over-approximate a parked goroutine by one that has not entered its select yet."),
 }
 
 NOT_YET = "check not built yet (framework under construction; see DESIGN.md section 7)"
